@@ -27,7 +27,7 @@ COMPOSITIONS = [
     ['methane', 'ethane'],
     ['methane', 'ethane', 'propane'],
     ['oxygen', 'nitrogen'],
-    ['carbon_dioxide', 'methane'],
+    ['methane', 'carbon_dioxide'],
 ]
 
 # compositions used for the classes that LIST a tracked compound they are released without (m0[j] == 0,
@@ -37,7 +37,7 @@ STRIP_COMPOSITIONS = [
     ['oxygen', 'nitrogen'],
     ['methane', 'ethane'],
     ['methane', 'ethane', 'propane'],
-    ['carbon_dioxide', 'methane'],
+    ['methane', 'carbon_dioxide'],
 ]
 
 
